@@ -102,4 +102,10 @@ CHECKS = {
         "text": "Seeded logical requests (methods, hosts, percent-encoded paths with captures, repeated/encoded query parameters, multi-valued and non-ASCII headers, quoted cookies, JSON/form/YAML/text/invalid bodies in both Envoy body encodings) are sent to the HTTP decision, Envoy gRPC and proxy services loaded with the same rules, whose CEL authorizers, `if` conditions and header/cookie finalizer templates read method, URL parts, captures, headers in three name casings, cookies and the decoded body; decisions, every echoed view value and every header/cookie produced for the upstream side must be pairwise equal. Held on the requests executed.",
         "note": "Mapping of a logical request to an Envoy CheckRequest follows the repository's tests (lower-case header keys, path/query separate). One open known finding (multi-valued pipeline header: first value on HTTP, joined on gRPC; both pinned by existing unit tests).",
     },
+    "C19": {
+        "level": "fault_enumeration",
+        "technique": "runtime monitoring: crash monitor over child processes (journal-before-apply, exit status / panic text), sentinel-based liveness of watchers, previous-state probes",
+        "text": "Each child process runs one fx-assembled decision app with secrets reload, watched file-system rule provider, jwt finalizer / TLS / http_message_signatures key stores, trust store, jwt/introspection/generic authenticators, remote authorizer and contextualizer against a scripted server; the parent enumerates inputs per kind (valid corpus, truncation sweeps, bit flips, empty/cert-only/key-only/unsupported/encrypted/mismatched/cyclic-chain key stores, type-confused rule sets for every field, malformed remote documents, malformed tokens and raw TCP garbage), each journaled with fsync before it is applied. Verdicts: child death or panic text (signature = panic site), watcher stopped (four unanswered valid sentinel writes in a row), previous state lost after a rejected reload, no error response for a malformed token.",
+        "note": "fsnotify reloads are asynchronous: a single missed reaction is re-nudged and never a verdict. The trust store is only loaded at start-up in this tree (panic caught on a harness goroutine). Real S3/Kubernetes/Redis are not part of this check.",
+    },
 }
